@@ -234,11 +234,14 @@ theorem subst_no_match (re : RStr) (rep : Bytes) (g : Bool) (line : Bytes) (res 
   rw [substLine.go]
   simp only [if_true, h, hres]
 
-/-- **subst_first_only**: without `g`, a first match `[so, eo)` with `eo > 0` is replaced by the expansion and
-    every other byte of the line is kept -/
-theorem subst_first_only (re : RStr) (rep line : Bytes) (res : Int) (offs : List Int) (c : Nat) (x : Bytes)
+/-- **subst_first**: without `g`, whatever the first match `[so, eo)` is, it is replaced by the expansion and
+    every other byte of the line is kept — provided that, when the match is empty (`eo ≤ so`: one character is
+    copied after it), that character is complete (otherwise `memcpy` reads past the terminator: a trap) -/
+theorem subst_first (re : RStr) (rep line : Bytes) (res : Int) (offs : List Int) (c : Nat) (x : Bytes)
     (h : rstrFind re line 16 0 ND NG = some (res, offs, c)) (hres : 0 ≤ res)
-    (heo : 0 < offs.getD 1 0) (hx : substExpand rep line offs = some x) :
+    (hx : substExpand rep line offs = some x)
+    (hch : offs.getD 1 0 ≤ offs.getD 0 0 →
+      Uc.ucLen ((line.drop (offs.getD 1 0).toNat).headD 0) ≤ (line.drop (offs.getD 1 0).toNat).length) :
     substLine re rep false line =
       some (some (line.take (offs.getD 0 0).toNat ++ x ++ line.drop (offs.getD 1 0).toNat)) := by
   unfold substLine
@@ -246,14 +249,27 @@ theorem subst_first_only (re : RStr) (rep line : Bytes) (res : Int) (offs : List
   have h1 : ¬ res < 0 := by omega
   simp only [↓reduceIte, h, h1, hx]
   generalize offs.getD 1 0 = eo at *
-  generalize (offs.getD 0 0).toNat = so at *
-  have h2 : ¬ eo ≤ 0 := by omega
-  simp [h2]
+  generalize offs.getD 0 0 = so at *
+  generalize List.drop eo.toNat line = ln1 at *
+  generalize Uc.ucLen (ln1.headD 0) = l at *
+  by_cases he : eo ≤ so
+  · have h4 : ¬ ln1.length < l := by have := hch he; omega
+    simp [he, h4]
+  · simp [he]
+
+/-- **subst_first_only**: without `g`, a non-empty first match `[so, eo)` is replaced by the expansion and
+    every other byte of the line is kept -/
+theorem subst_first_only (re : RStr) (rep line : Bytes) (res : Int) (offs : List Int) (c : Nat) (x : Bytes)
+    (h : rstrFind re line 16 0 ND NG = some (res, offs, c)) (hres : 0 ≤ res)
+    (heo : offs.getD 0 0 < offs.getD 1 0) (hx : substExpand rep line offs = some x) :
+    substLine re rep false line =
+      some (some (line.take (offs.getD 0 0).toNat ++ x ++ line.drop (offs.getD 1 0).toNat)) :=
+  subst_first re rep line res offs c x h hres hx (fun he => absurd he (by omega))
 
 /-- the same with the reference expansion, when the groups are usable -/
 theorem subst_first_only_ref (re : RStr) (rep line : Bytes) (res : Int) (offs : List Int) (c : Nat)
     (h : rstrFind re line 16 0 ND NG = some (res, offs, c)) (hres : 0 ≤ res)
-    (heo : 0 < offs.getD 1 0) (hok : ∀ d ∈ refs rep, GrpOk line offs d) :
+    (heo : offs.getD 0 0 < offs.getD 1 0) (hok : ∀ d ∈ refs rep, GrpOk line offs d) :
     substLine re rep false line =
       some (some (line.take (offs.getD 0 0).toNat ++ expandRef rep line offs ++ line.drop (offs.getD 1 0).toNat)) :=
   subst_first_only re rep line res offs c _ h hres heo (expand_spec rep line offs hok)
@@ -265,18 +281,10 @@ theorem subst_first_only_empty (re : RStr) (rep line : Bytes) (res : Int) (offs 
     (heo : offs.getD 1 0 ≤ 0) (hx : substExpand rep line offs = some x)
     (hch : Uc.ucLen (line.headD 0) ≤ line.length) :
     substLine re rep false line = some (some (line.take (offs.getD 0 0).toNat ++ x ++ line)) := by
-  unfold substLine
-  rw [substLine.go]
-  have h1 : ¬ res < 0 := by omega
-  simp only [↓reduceIte, h, h1, hx]
-  generalize offs.getD 1 0 = eo at *
-  generalize (offs.getD 0 0).toNat = so at *
-  have h3 : eo.toNat = 0 := by omega
-  simp only [heo, h3, List.drop_zero, decide_true, Bool.true_and, gt_iff_lt, decide_eq_true_eq, ↓reduceIte,
-    Bool.not_false, Bool.or_true, Option.getD_none, List.nil_append, List.append_assoc]
-  generalize Uc.ucLen (line.headD 0) = l at *
-  have h4 : ¬ line.length < l := by omega
-  simp only [h4, ↓reduceIte, List.append_assoc, List.take_append_drop]
+  have h3 : (offs.getD 1 0).toNat = 0 := by omega
+  have := subst_first re rep line res offs c x h hres hx (by rw [h3]; exact fun _ => hch)
+  rw [h3] at this
+  exact this
 
 /-! ## 4. the scan over one line against an abstract matcher -/
 
@@ -286,6 +294,82 @@ abbrev Matcher := Bytes → Bool → Option (Option (Nat × Nat × List Int))
 
 /-- a matcher that never traps, in the plain form -/
 def Matcher.ofTotal (find : Bytes → Bool → Option (Nat × Nat × List Int)) : Matcher := fun s nb => some (find s nb)
+
+theorem foldl_pick (cond : Nat → Bool) : ∀ (l : List Nat) (acc : Int),
+    l.foldl (fun (acc : Int) i => if cond i then (i : Int) else acc) acc = acc ∨
+    ∃ i : Nat, l.foldl (fun (acc : Int) i => if cond i then (i : Int) else acc) acc = (i : Int) ∧ cond i = true := by
+  intro l
+  induction l with
+  | nil => intro acc; exact Or.inl rfl
+  | cons a l ih =>
+    intro acc
+    rw [List.foldl_cons]
+    by_cases hc : cond a = true
+    · rw [if_pos hc]
+      rcases ih (a : Int) with h | h
+      · exact Or.inr ⟨a, h, hc⟩
+      · exact Or.inr h
+    · rw [if_neg hc]
+      exact ih acc
+
+/-- a match reported by `rset_find` starts at a non-negative offset: the set is chosen among those whose
+    outer group has a start `≥ 0`, and `offs[0]` is that start -/
+theorem find_so_nonneg (rs : RSet) (s : Bytes) (n flg nd ng : Nat) (res : Int) (offs : List Int) (c : Nat)
+    (h : find rs s n flg nd ng = some (res, offs, c)) (hres : 0 ≤ res) : 0 ≤ offs.getD 0 0 := by
+  unfold find at h
+  split at h
+  · cases h; omega
+  · simp only [] at h
+    split at h
+    · cases h
+    · cases h; omega
+    · rename_i m c' subs hx
+      split at h
+      · cases h; omega
+      · rename_i hset
+        simp only [Option.some.injEq, Prod.mk.injEq] at h
+        obtain ⟨h1, h2, _⟩ := h
+        subst h2
+        cases n with
+        | zero => simp
+        | succ n =>
+          rcases foldl_pick (fun i => rs.grp.getD i (-1) ≥ 0 && (subs.getD (rs.grp.getD i (-1)).toNat (-1, -1)).1 ≥ 0)
+            (List.range rs.n) (-1) with hp | ⟨i, hp, hc⟩
+          · exact absurd (by rw [hp]; omega) hset
+          · rw [hp]
+            simp only [Bool.and_eq_true, decide_eq_true_eq] at hc
+            obtain ⟨hc1, hc2⟩ := hc
+            have hg : rs.grp.getD i 0 = rs.grp.getD i (-1) := by
+              simp only [List.getD_eq_getElem?_getD] at hc1 ⊢
+              cases hgi : rs.grp[i]? with
+              | none => rw [hgi] at hc1; simp at hc1
+              | some v => rfl
+            rw [List.range_succ_eq_map, List.flatMap_cons]
+            simp only [Int.toNat_natCast, Nat.zero_lt_succ, if_true, Nat.add_zero, hg, List.cons_append,
+              List.getD_cons_zero]
+            exact hc2
+
+/-- the same for `rstr_find` (the literal fast path reports `[r, r + len)` with `r` a position) -/
+theorem rstrFind_so_nonneg (re : RStr) (s : Bytes) (n flg nd ng : Nat) (res : Int) (offs : List Int) (c : Nat)
+    (h : rstrFind re s n flg nd ng = some (res, offs, c)) (hres : 0 ≤ res) : 0 ≤ offs.getD 0 0 := by
+  unfold rstrFind at h
+  split at h
+  · exact find_so_nonneg _ _ _ _ _ _ _ _ _ h hres
+  · simp only [] at h
+    split at h
+    · cases h; omega
+    · split at h
+      · cases h; omega
+      · split at h
+        · cases h
+        · cases h; omega
+        · rename_i r _
+          simp only [Option.some.injEq, Prod.mk.injEq] at h
+          obtain ⟨_, h2, _⟩ := h
+          subst h2
+          cases n with
+          | zero => simp
+          | succ n => simp
 
 /-- `rstr_find` as `ec_substitute` calls it, seen as a matcher -/
 def rsFind (re : RStr) : Matcher := fun s notbol =>
@@ -334,8 +418,8 @@ def scan (find : Matcher) (rep : Bytes) (g : Bool) (ln : Bytes) (notbol : Bool) 
     | none => none                              -- garbage group offsets
     | some x =>
       let rest := ln.drop eo
-      -- after an empty match at the start one character is copied, so that the scan advances
-      let l := if eo = 0 then Uc.ucLen (rest.headD 0) else 0
+      -- after an empty match (`eo ≤ so`) one character is copied, so that the scan advances
+      let l := if eo ≤ so then Uc.ucLen (rest.headD 0) else 0
       if l > rest.length then none else         -- a truncated character
       let p : Piece := ⟨ln.take so, (ln.take eo).drop so, x, rest.take l⟩
       let rest' := rest.drop l
@@ -439,46 +523,51 @@ theorem go_eq_scan (re : RStr) (rep : Bytes) (g : Bool) : ∀ (n : Nat) (ln : By
         · have hrs : rsFind re ln notbol = some (some ((offs.getD 0 0).toNat, (offs.getD 1 0).toNat, offs)) := by
             simp only [rsFind, hfnd, hres, if_false]
           rw [hrs]
+          have hso : 0 ≤ offs.getD 0 0 := rstrFind_so_nonneg _ _ _ _ _ _ _ _ _ hfnd (by omega)
           simp only [hres, if_false, substExpand_eq]
           cases hx : expandOpt rep ln offs with
           | none => rfl
           | some x =>
             simp only []
-            generalize (offs.getD 0 0).toNat = so
+            generalize hsoI : offs.getD 0 0 = soI at *
             generalize heo : offs.getD 1 0 = eo
-            by_cases he : eo ≤ 0
-            · have he0 : eo.toNat = 0 := by omega
-              simp only [he, he0, List.drop_zero, decide_true, Bool.true_and, ↓reduceIte]
-              by_cases hl : Uc.ucLen (ln.headD 0) > ln.length
+            generalize hln1 : ln.drop eo.toNat = ln1
+            have hln1len : ln1.length ≤ ln.length := by rw [← hln1, List.length_drop]; omega
+            have h01 : ∀ b ∈ ln1, b ≠ 0 := fun b hb => h0 b (List.mem_of_mem_drop (hln1 ▸ hb))
+            by_cases he : eo ≤ soI
+            · have he' : eo.toNat ≤ soI.toNat := by omega
+              simp only [he, he', decide_true, Bool.true_and, ↓reduceIte]
+              by_cases hl : Uc.ucLen (ln1.headD 0) > ln1.length
               · rw [if_pos (decide_eq_true hl), if_pos hl]; rfl
               · rw [if_neg (by simpa using hl), if_neg hl]
-                have := key ⟨ln.take so, (ln.take 0).drop so, x, ln.take (Uc.ucLen (ln.headD 0))⟩
-                  (ln.drop (Uc.ucLen (ln.headD 0)))
+                have := key ⟨ln.take soI.toNat, (ln.take eo.toNat).drop soI.toNat, x, ln1.take (Uc.ucLen (ln1.headD 0))⟩
+                  (ln1.drop (Uc.ucLen (ln1.headD 0)))
                   (by
                     intro hne
-                    cases ln with
+                    cases ln1 with
                     | nil => simp at hne
                     | cons a t =>
-                      have ha : a ≠ 0 := h0 a (by simp)
+                      have ha : a ≠ 0 := h01 a (by simp)
                       have := C12.ucLen_pos (c := a) (by omega)
-                      simp only [List.headD_cons, List.length_drop, List.length_cons]
+                      simp only [List.headD_cons, List.length_drop, List.length_cons] at hln1len ⊢
                       omega)
-                  (fun b hb => h0 b (List.mem_of_mem_drop hb))
+                  (fun b hb => h01 b (List.mem_of_mem_drop hb))
                 simp only [List.append_assoc] at this ⊢
                 exact this
-            · have he0 : eo.toNat ≠ 0 := by omega
-              simp only [he, he0, decide_false, Bool.false_and, Bool.false_eq_true, ↓reduceIte, gt_iff_lt,
+            · have he' : ¬ eo.toNat ≤ soI.toNat := by omega
+              have he0 : eo.toNat ≠ 0 := by omega
+              simp only [he, he', decide_false, Bool.false_and, Bool.false_eq_true, ↓reduceIte, gt_iff_lt,
                 Nat.not_lt_zero, List.take_zero, List.drop_zero]
-              have := key ⟨ln.take so, (ln.take eo.toNat).drop so, x, []⟩ (ln.drop eo.toNat)
+              have := key ⟨ln.take soI.toNat, (ln.take eo.toNat).drop soI.toNat, x, []⟩ ln1
                   (by
                     intro hne
                     have : eo.toNat < ln.length := by
                       apply Classical.byContradiction
                       intro hge
-                      exact hne (List.drop_eq_nil_of_le (by omega))
-                    simp only [List.length_drop]
+                      exact hne (hln1 ▸ List.drop_eq_nil_of_le (by omega))
+                    rw [← hln1, List.length_drop]
                     omega)
-                  (fun b hb => h0 b (List.mem_of_mem_drop hb))
+                  h01
               simp only [List.append_assoc, List.append_nil] at this ⊢
               exact this
 
@@ -523,7 +612,7 @@ theorem scan_cases {find : Matcher} {rep : Bytes} {g : Bool} {ln : Bytes} {nb : 
     (h : scan find rep g ln nb = some (ps, rest)) :
     (find ln nb = some none ∧ ps = [] ∧ rest = ln) ∨
     ∃ so eo offs x l ps', find ln nb = some (some (so, eo, offs)) ∧ expandOpt rep ln offs = some x ∧
-      l = (if eo = 0 then Uc.ucLen ((ln.drop eo).headD 0) else 0) ∧ l ≤ (ln.drop eo).length ∧
+      l = (if eo ≤ so then Uc.ucLen ((ln.drop eo).headD 0) else 0) ∧ l ≤ (ln.drop eo).length ∧
       ps = ⟨ln.take so, (ln.take eo).drop so, x, (ln.drop eo).take l⟩ :: ps' ∧
       ((ps' = [] ∧ rest = (ln.drop eo).drop l) ∨
        (((ln.drop eo).drop l).length < ln.length ∧ scan find rep g ((ln.drop eo).drop l) true = some (ps', rest))) := by
@@ -537,7 +626,7 @@ theorem scan_cases {find : Matcher} {rep : Bytes} {g : Bool} {ln : Bytes} {nb : 
     · cases h
     · rename_i x hx
       simp only [] at h
-      generalize hl : (if eo = 0 then Uc.ucLen ((ln.drop eo).headD 0) else 0) = l at h
+      generalize hl : (if eo ≤ so then Uc.ucLen ((ln.drop eo).headD 0) else 0) = l at h
       split at h
       · cases h
       · rename_i hle
@@ -648,6 +737,191 @@ theorem spans_text (rest : Bytes) : ∀ (ps : List Piece) (pre : Bytes) (i : Nat
       have := ih (pre ++ q.skip ++ q.matched ++ q.ch) i p a b hp (by simpa [Nat.add_assoc] using hs)
       simpa [srcOf, List.append_assoc] using this
 
+/-- `scan_cases`, keeping why the scan went on: the rest is not empty, does not start with a newline, and
+    `g` is set -/
+theorem scan_cases_go {find : Matcher} {rep : Bytes} {g : Bool} {ln : Bytes} {nb : Bool} {ps : List Piece} {rest : Bytes}
+    (h : scan find rep g ln nb = some (ps, rest)) :
+    (find ln nb = some none ∧ ps = [] ∧ rest = ln) ∨
+    ∃ so eo offs x l ps', find ln nb = some (some (so, eo, offs)) ∧ expandOpt rep ln offs = some x ∧
+      l = (if eo ≤ so then Uc.ucLen ((ln.drop eo).headD 0) else 0) ∧ l ≤ (ln.drop eo).length ∧
+      ps = ⟨ln.take so, (ln.take eo).drop so, x, (ln.drop eo).take l⟩ :: ps' ∧
+      ((ps' = [] ∧ rest = (ln.drop eo).drop l) ∨
+       ((ln.drop eo).drop l ≠ [] ∧ ((ln.drop eo).drop l).headD 0 ≠ 10 ∧ g = true ∧
+        ((ln.drop eo).drop l).length < ln.length ∧ scan find rep g ((ln.drop eo).drop l) true = some (ps', rest))) := by
+  rw [scan] at h
+  split at h
+  · cases h
+  · rename_i hf; cases h; exact Or.inl ⟨hf, rfl, rfl⟩
+  · rename_i so eo offs hf
+    right
+    split at h
+    · cases h
+    · rename_i x hx
+      simp only [] at h
+      generalize hl : (if eo ≤ so then Uc.ucLen ((ln.drop eo).headD 0) else 0) = l at h
+      split at h
+      · cases h
+      · rename_i hle
+        split at h
+        · cases h
+          exact ⟨so, eo, offs, x, l, [], hf, hx, hl.symm, by omega, rfl, Or.inl ⟨rfl, rfl⟩⟩
+        · rename_i hgo
+          split at h
+          · rename_i hlt
+            split at h
+            · cases h
+            · rename_i ps' r' hs
+              cases h
+              refine ⟨so, eo, offs, x, l, ps', hf, hx, hl.symm, by omega, rfl, Or.inr ⟨?_, ?_, ?_, hlt, hs⟩⟩
+              · exact fun h => hgo (Or.inl h)
+              · exact fun h => hgo (Or.inr (Or.inl h))
+              · cases g
+                · exact absurd (Or.inr (Or.inr rfl)) hgo
+                · rfl
+          · cases h
+
+/-- **scan_progress**: every round but the last consumes at least one byte of the line — the skipped, the
+    matched and the copied text of a piece that is not the last are not all empty.  (With the test
+    `offs[1] <= offs[0]` an empty match is always followed by a copied character; a non-empty one consumes its
+    own text.) -/
+theorem scan_progress (find : Matcher) (rep : Bytes) (g : Bool) : ∀ (n : Nat) (ln : Bytes), ln.length < n →
+    ∀ (nb : Bool) (ps : List Piece) (rest : Bytes), scan find rep g ln nb = some (ps, rest) →
+    ∀ (i : Nat) (p : Piece), i + 1 < ps.length → ps[i]? = some p → p.skip ++ p.matched ++ p.ch ≠ [] := by
+  intro n
+  induction n with
+  | zero => intro ln hn; omega
+  | succ n ih =>
+    intro ln hn nb ps rest h i p hi hp
+    rcases scan_cases h with ⟨_, rfl, rfl⟩ | ⟨so, eo, offs, x, l, ps', hf, _, _, hl, rfl, hrest⟩
+    · simp at hi
+    · rcases hrest with ⟨rfl, rfl⟩ | ⟨hlt, hs⟩
+      · simp at hi
+      · cases i with
+        | zero =>
+          simp only [List.getElem?_cons_zero, Option.some.injEq] at hp
+          subst hp
+          intro hnil
+          have := congrArg List.length hnil
+          simp only [List.length_append, List.length_take, List.length_drop, List.length_nil] at this hlt hl
+          omega
+        | succ i =>
+          simp only [List.getElem?_cons_succ] at hp
+          simp only [List.length_cons] at hi
+          exact ih _ (by omega) _ _ _ hs i p (by omega) hp
+
+theorem spans_length (base : Nat) (ps : List Piece) : (spans base ps).length = ps.length := by
+  induction ps generalizing base with
+  | nil => rfl
+  | cons p ps ih => simp only [spans, List.length_cons, ih]
+
+/-- after an empty match that is not the last one, a character is copied (the line is a C string: no NUL) -/
+theorem empty_match_then_char (find : Matcher) (hord : find.Ordered) (rep : Bytes) (g : Bool) :
+    ∀ (n : Nat) (ln : Bytes), ln.length < n → (∀ b ∈ ln, b ≠ 0) →
+    ∀ (nb : Bool) (ps : List Piece) (rest : Bytes), scan find rep g ln nb = some (ps, rest) →
+    ∀ (i : Nat) (p : Piece), i + 1 < ps.length → ps[i]? = some p → p.matched = [] → p.ch ≠ [] := by
+  intro n
+  induction n with
+  | zero => intro ln hn; omega
+  | succ n ih =>
+    intro ln hn h0 nb ps rest h i p hi hp hm
+    rcases scan_cases_go h with ⟨_, rfl, rfl⟩ | ⟨so, eo, offs, x, l, ps', hf, _, hl, hle, rfl, hrest⟩
+    · simp at hi
+    · rcases hrest with ⟨rfl, rfl⟩ | ⟨hne, _, _, hlt, hs⟩
+      · simp at hi
+      · cases i with
+        | zero =>
+          simp only [List.getElem?_cons_zero, Option.some.injEq] at hp
+          subst hp
+          simp only [] at hm ⊢
+          have hso := hord _ _ _ _ _ hf
+          have hm' := congrArg List.length hm
+          simp only [List.length_drop, List.length_take, List.length_nil] at hm'
+          have hne' : 0 < ((ln.drop eo).drop l).length := List.length_pos_iff.2 hne
+          simp only [List.length_drop] at hne' hle
+          have heq : eo ≤ so := by omega
+          rw [if_pos heq] at hl
+          cases hd : ln.drop eo with
+          | nil => rw [hd] at hne; simp at hne
+          | cons a t =>
+            have ha : a ≠ 0 := h0 a (List.mem_of_mem_drop (hd ▸ List.mem_cons_self))
+            have hpos := C12.ucLen_pos (c := a) (by omega)
+            rw [hd] at hl
+            simp only [List.headD_cons] at hl
+            intro hnil
+            have := congrArg List.length hnil
+            simp only [List.length_take, List.length_cons, List.length_nil] at this
+            omega
+        | succ i =>
+          simp only [List.getElem?_cons_succ] at hp
+          simp only [List.length_cons] at hi
+          exact ih _ (by omega) (fun b hb => h0 b (List.mem_of_mem_drop (List.mem_of_mem_drop hb))) _ _ _ hs i p
+            (by omega) hp hm
+
+/-- an empty match is followed by a match strictly further on in the line -/
+theorem empty_match_advances (find : Matcher) (hord : find.Ordered) (rep : Bytes) (g : Bool) :
+    ∀ (n : Nat) (ln : Bytes), ln.length < n → (∀ b ∈ ln, b ≠ 0) →
+    ∀ (nb : Bool) (ps : List Piece) (rest : Bytes), scan find rep g ln nb = some (ps, rest) →
+    ∀ (base i a1 b1 a2 b2 : Nat), (spans base ps)[i]? = some (a1, b1) → (spans base ps)[i + 1]? = some (a2, b2) →
+      a1 = b1 → b1 < a2 := by
+  intro n
+  induction n with
+  | zero => intro ln hn; omega
+  | succ n ih =>
+    intro ln hn h0 nb ps rest h base i a1 b1 a2 b2 h1 h2 he
+    have hlen : i + 1 < ps.length := by
+      rw [← spans_length base ps]
+      exact (List.getElem?_eq_some_iff.1 h2).1
+    cases ps with
+    | nil => simp at hlen
+    | cons p0 ps' =>
+      cases i with
+      | zero =>
+        have hch := empty_match_then_char find hord rep g _ ln hn h0 nb _ rest h 0 p0 hlen rfl
+        simp only [spans, List.getElem?_cons_zero, Option.some.injEq, Prod.mk.injEq] at h1
+        simp only [spans, List.getElem?_cons_succ] at h2
+        obtain ⟨rfl, rfl⟩ := h1
+        have hm : p0.matched = [] := List.length_eq_zero_iff.1 (by omega)
+        have hc : 0 < p0.ch.length := List.length_pos_iff.2 (hch hm)
+        cases ps' with
+        | nil => simp [spans] at h2
+        | cons p1 ps'' =>
+          simp only [spans, List.getElem?_cons_zero, Option.some.injEq, Prod.mk.injEq] at h2
+          omega
+      | succ i =>
+        rcases scan_cases h with ⟨_, hnil, _⟩ | ⟨so, eo, offs, x, l, ps1, _, _, _, _, hps, hrest⟩
+        · cases hnil
+        · simp only [List.cons.injEq] at hps
+          obtain ⟨_, rfl⟩ := hps
+          rcases hrest with ⟨rfl, _⟩ | ⟨hlt, hs⟩
+          · simp at hlen
+          · simp only [spans, List.getElem?_cons_succ] at h1 h2
+            exact ih _ (by omega) (fun b hb => h0 b (List.mem_of_mem_drop (List.mem_of_mem_drop hb))) _ _ _ hs
+              _ i a1 b1 a2 b2 h1 h2 he
+
+/-- **no_empty_match_twice**: two consecutive pieces never both have an empty match at the same position
+    of the line.  (With the old test `offs[1] <= 0` they did: `:s` with pattern `\<`, replacement `-` and flag `g` on ` ab`
+    substituted twice at offset 1.) -/
+theorem no_empty_match_twice (find : Matcher) (hord : find.Ordered) (rep : Bytes) (g : Bool) (ln : Bytes)
+    (h0 : ∀ b ∈ ln, b ≠ 0) (nb : Bool) (ps : List Piece) (rest : Bytes) (h : scan find rep g ln nb = some (ps, rest))
+    (base i a1 b1 a2 b2 : Nat) (h1 : (spans base ps)[i]? = some (a1, b1)) (h2 : (spans base ps)[i + 1]? = some (a2, b2)) :
+    ¬ (a1 = b1 ∧ a2 = b2 ∧ a2 = a1) := by
+  intro ⟨e1, _, e3⟩
+  have := empty_match_advances find hord rep g _ ln (Nat.lt_succ_self _) h0 nb ps rest h base i a1 b1 a2 b2 h1 h2 e1
+  omega
+
+/-- the same for the model's `:s` on a line: the pieces of `output_pieces` advance after every empty match -/
+theorem subst_no_empty_match_twice (re : RStr) (hord : (rsFind re).Ordered) (rep : Bytes) (g : Bool) (line out : Bytes)
+    (h0 : ∀ b ∈ line, b ≠ 0) (h : substLine re rep g line = some (some out)) :
+    ∃ ps rest, ps ≠ [] ∧ line = srcOf ps rest ∧ out = outOf ps rest ∧
+      (∀ i p, i + 1 < ps.length → ps[i]? = some p → p.skip ++ p.matched ++ p.ch ≠ []) ∧
+      ∀ i a1 b1 a2 b2, (spans 0 ps)[i]? = some (a1, b1) → (spans 0 ps)[i + 1]? = some (a2, b2) →
+        (a1 = b1 → b1 < a2) ∧ ¬ (a1 = b1 ∧ a2 = b2 ∧ a2 = a1) := by
+  obtain ⟨ps, rest, hne, hs, h1, h2⟩ := output_pieces re hord rep g line out h0 h
+  refine ⟨ps, rest, hne, h1, h2, scan_progress _ rep g _ line (Nat.lt_succ_self _) false ps rest hs, ?_⟩
+  intro i a1 b1 a2 b2 e1 e2
+  exact ⟨empty_match_advances _ hord rep g _ line (Nat.lt_succ_self _) h0 false ps rest hs 0 i a1 b1 a2 b2 e1 e2,
+    no_empty_match_twice _ hord rep g line h0 false ps rest hs 0 i a1 b1 a2 b2 e1 e2⟩
+
 /-- **anchored patterns match once**: if the matcher never matches when told "not at the beginning of the
     line" (as for `^…` patterns), the scan yields at most one piece, cut at the beginning of the line -/
 theorem anchored_once (find : Matcher) (hbol : ∀ s, find s true = some none) (rep : Bytes) (g : Bool)
@@ -681,6 +955,18 @@ example : (rstrMake [97] 0).bind (fun r => r.bind (fun re => substLine re [98] f
 /-- `^a` with `g`: once -/
 example : (rstrMake [94, 97] 0).bind (fun r => r.bind (fun re => substLine re [98] true [97, 97, 97, 10])) =
     some (some [98, 97, 97, 10]) := by decide
+
+/-- `:s` with pattern `\<`, replacement `-` and flag `g` on ` ab`: the result is ` -a-b`.  The empty match at
+    offset 1 is substituted once and `a` is copied after it (before the repair of the zero-length test the next
+    round found it again: ` --ab`).  The `-` before `b` is the recorded known finding: the matcher is handed the
+    rest of the line, `b`, and does not see the word character before it. -/
+example : (rstrMake [92, 60] 0).bind (fun r => r.bind (fun re => substLine re [45] true [32, 97, 98, 10])) =
+    some (some [32, 45, 97, 45, 98, 10]) := by decide
+/-- its two pieces: empty matches at offsets 1 and 2 of the line — never twice at the same offset
+    (`no_empty_match_twice`) -/
+example : (rstrMake [92, 60] 0).bind (fun r => r.bind (fun re =>
+    (scan (rsFind re) [45] true [32, 97, 98, 10] false).map (fun x => (spans 0 x.1, x.2)))) =
+    some ([(1, 1), (2, 2)], [10]) := by decide +kernel
 
 /-! ## 5. the frame of `ec_substitute`
 
@@ -1259,6 +1545,12 @@ example : (rstrMake [98] 0).map (fun r => r.map (fun re =>
 example : (rstrMake [98] 0).bind (fun r => r.bind (fun re =>
     (substLoop re false 1 2 { exBuf with xrep := [88, 10, 89] }).map edLines)) =
     some [[97, 10], [88, 10], [89, 10], [88, 10], [89, 10], [99, 10], [100, 10]] := by decide
+
+/-- the same `\<` command through `runCmd`: ` ab` becomes ` -a-b` -/
+example : (runCmd 1 { bufs := [some { path := [], lb := { lines := [[32, 97, 98, 10]] } }] } "ec_substitute" [] [115]
+    [47, 92, 60, 47, 45, 47, 103] none).map (fun r => (r.1, edLines r.2)) = some (0, [[32, 45, 97, 45, 98, 10]]) := by
+  rw [runCmd_subst_eq]
+  decide +kernel
 
 /-! `:1,4s/b\<newline>//`: the pattern consumes the line's own newline, the rewritten text is empty and the
     line vanishes.  The pattern is not a literal, so the matcher is the regex VM (defined by well-founded
